@@ -890,3 +890,11 @@ def model_lines(case, impl):
     if impl is None:
         return case
     return [f"{op} -> {impl[i]}" if i < len(impl) else op for i, op in enumerate(case)]
+
+# ---------------------------------------------------------------- real nodes through the public API (engine: extra_cases)
+# `Litep2p::new` (src/lib.rs), `ConfigBuilder` (src/config.rs) and the protocol / transport `Config` builders hand every
+# constructed object its configuration; the `node` area (checks/node.py) builds real nodes, compares what the CONSTRUCTED
+# objects hold (and what a connection's `ProtocolSet` answers per main / fallback name) with the wiring model
+# (Model/Node/Wiring.lean).
+from . import node as _node  # noqa: E402
+_node.install(globals())
